@@ -32,6 +32,9 @@ REQUESTS = {
     "sphere": dict(radius=50.0, radius_pd=0.1, radius_pd_n=5, scale=2.0),
     "cylinder": dict(radius=20.0, length=100.0, length_pd=0.2, length_pd_n=4),
     "c18plug": dict(a=7.0, b=2.0),
+    # another version of the same plugin (same model id, other source): two
+    # versions of one model may be built concurrently against one cache
+    "c18plug_v2": dict(a=7.0, b=2.0),
 }
 DTYPES = ("double", "single")
 
@@ -43,6 +46,8 @@ G = {}   # per-invocation state, built in the parent before workers fork
 def model_ref(model):
     if model == "c18plug":
         return os.path.join(ASSETS, "c18plug.py")
+    if model == "c18plug_v2":
+        return os.path.join(ASSETS, "v2", "c18plug.py")
     return model
 
 
@@ -88,6 +93,7 @@ def prepare(tier):
     G["by_src"] = by_src
     G["extra_golden"] = {}
     G["names"] = [0]
+    G["devnull"] = os.open(os.devnull, os.O_RDWR)
     G["run_counter"] = 0
     seams.install_name_generator(G["names"])
     shutil.COPY_BUFSIZE = 4096
@@ -105,6 +111,9 @@ def prepare(tier):
             raise baton.HarnessError("solo build of %s does not work on this tree: %r"
                                      % (model, res["violations"] or res["harness_error"]))
         solo[model] = res["steps"]
+        ev = run_one(cfg, keep_events=True)["events"]
+        pos = sorted(set(e[0] for e in ev if e[1] != "-" and e[2].split(":")[0] in ("os", "io", "cc", "ld", "tmp")))
+        G.setdefault("event_steps", {})[model] = pos
     G["solo"] = solo
     G["solo_max"] = max(solo.values())
 
@@ -145,7 +154,7 @@ class World(object):
     # swapped at every hand-over: each process sees its own copy (pristine at
     # start, or - for a process forked from another - a copy of the parent's
     # at the moment of the fork).
-    SEAM_NAMES = ("subprocess", "ct", "os", "tempfile", "SAS_DLL_PATH")
+    SEAM_NAMES = ("subprocess", "ct", "os", "tempfile", "SAS_DLL_PATH", "open")
 
     def _module_data(self):
         import types
@@ -226,6 +235,39 @@ class World(object):
         self.violations.append({"inv": inv, "actor": actor, "detail": detail,
                                 "step": self.sched.step if self.sched else -1})
 
+    def note_syscall(self, label):
+        s = self.sched
+        if s is not None and s.current() is not None:
+            s.note(label)
+
+    def track_fd(self, fd):
+        """Remember a descriptor opened by the running simulated process."""
+        me = self.sched.current() if self.sched else None
+        if me is not None and isinstance(fd, int) and fd > 2:
+            try:
+                st = os.fstat(fd)
+                # descriptor numbers are reused once closed: remember which file this one is
+                me.data.setdefault("fds", []).append((fd, st.st_dev, st.st_ino))
+            except OSError:
+                pass
+        return fd
+
+    def close_descriptors_of(self, actor):
+        """What the kernel does when a process dies: its descriptors are closed
+        (advisory locks released, nothing in user-space buffers is flushed).
+        The numbers stay allocated - pointed at /dev/null - so that the parked
+        thread's file objects cannot later close somebody else's descriptor."""
+        for fd, dev, ino in actor.data.get("fds", []):
+            try:
+                st = os.fstat(fd)
+                if (st.st_dev, st.st_ino) != (dev, ino):
+                    continue            # closed long ago, the number now belongs to somebody else
+                os.dup2(G["devnull"], fd)
+                self.probe("descriptor_closed_by_kill")
+            except OSError:
+                pass
+        actor.data["fds"] = []
+
     def io_fault(self, kind):
         """A failing system call (disk full) scheduled for the running process?"""
         me = self.sched.current() if self.sched else None
@@ -293,7 +335,10 @@ class World(object):
         if child.exc is not None:
             raise baton.HarnessError("scripted compiler raised: %r" % (child.exc,))
         rc, out = child.result if child.result is not None else (1, b"")
-        if rc != 0:
+        if rc != 0 and child.data.get("injected_failure"):
+            # only a failure the simulator injected excuses the process that
+            # reports it; a compiler that fails because another process pulled
+            # its output directory away is the race under test
             self.cc_failed_for.add(me.name)
         return rc, out
 
@@ -363,7 +408,7 @@ class World(object):
                 os.unlink(out)          # what GNU ld does to an ordinary output
                 s.yield_point("cc:unlink_out")
         try:
-            fd = os.open(out, os.O_WRONLY | os.O_CREAT | os.O_TRUNC, 0o755)
+            fd = self.track_fd(os.open(out, os.O_WRONLY | os.O_CREAT | os.O_TRUNC, 0o755))
         except OSError as exc:
             # the real linker: "cannot open output file ...: No such file or directory"
             self.probe("compiler_could_not_create_output")
@@ -399,13 +444,17 @@ class World(object):
             if fail is not None and fail["after"] >= k:
                 return self._cc_fail(a, fd, out, fail, owner)
         finally:
-            os.close(fd)
+            try:
+                os.close(fd)
+            except OSError:
+                pass
             self.compiling.get(os.path.basename(out), set()).discard(a.name)
             self.cc_outputs.pop(a.name, None)
         s.yield_point("cc:exit", 0)
         return 0, b""
 
     def _cc_fail(self, a, fd, out, fail, owner):
+        a.data["injected_failure"] = True
         self.fired["cc_fail_" + fail["how"]] = self.fired.get("cc_fail_" + fail["how"], 0) + 1
         if fail["how"] == "clean":
             # ld reports the error (disk full, ...) and removes its output
@@ -447,11 +496,17 @@ class World(object):
             return ctypes.CDLL(exp["path"], *a, **kw)
         if exp is None:
             raise baton.HarnessError("loader called outside a request")
-        what = ("%d of %d bytes" % (len(data), len(exp["bytes"]))
-                if len(data) != len(exp["bytes"]) else
-                "%d bytes, content differs from the complete build" % len(data))
-        self.violation("I3", me.name, "loaded a partially written library: %s at %s"
-                       % (what, self.canon(path)))
+        other = [k for k, g in G["golden"].items() if g["bytes"] == data]
+        if other:
+            self.violation("I3", me.name, "loaded the wrong library: %s holds the complete build of %s/%s, "
+                           "not of the requested source" % (self.canon(path), other[0][0], other[0][1]))
+            what = "the build of another source"
+        else:
+            what = ("%d of %d bytes" % (len(data), len(exp["bytes"]))
+                    if len(data) != len(exp["bytes"]) else
+                    "%d bytes, content differs from the complete build" % len(data))
+            self.violation("I3", me.name, "loaded a partially written library: %s at %s"
+                           % (what, self.canon(path)))
         s.yield_point("ld:open", [self.canon(path), "partial", len(data)])
         raise OSError("%s: file too short (simulated loader: %s)" % (path, what))
 
@@ -510,6 +565,10 @@ class World(object):
             return
         phase = target.data.get("phase", "start")
         if self.sched.kill(target, k["group"]):
+            self.close_descriptors_of(target)
+            if k["group"]:
+                for child in target.children:
+                    self.close_descriptors_of(child)
             kind = "kill_group" if k["group"] else "kill_parent_only"
             self.fired[kind] = self.fired.get(kind, 0) + 1
             self.sched.events.append((self.sched.step, target.name, "fault:" + kind, phase))
@@ -573,6 +632,18 @@ def run_one(cfg, decisions=None, keep_events=False):
     os.makedirs(run_dir)
     world = World(cfg, run_dir)
     saved = (kd.subprocess, kd.ct, kd.os, kd.tempfile, kd.SAS_DLL_PATH)
+    had_open = "open" in vars(kd)
+    saved_open = vars(kd).get("open")
+
+    def tracked_open(*args, **kw):
+        world.note_syscall("io:open")
+        f = open(*args, **kw)
+        try:
+            world.track_fd(f.fileno())
+        except (OSError, ValueError):
+            pass
+        return f
+    kd.open = tracked_open
     kd.subprocess = seams.SubprocessShim(world)
     kd.ct = seams.CtProxy(world)
     kd.os = seams.OsProxy(world)
@@ -715,6 +786,10 @@ def run_one(cfg, decisions=None, keep_events=False):
         if xdev_saved is not None:
             os.rename, os.replace, os.link = xdev_saved
         kd.subprocess, kd.ct, kd.os, kd.tempfile, kd.SAS_DLL_PATH = saved
+        if had_open:
+            kd.open = saved_open
+        else:
+            del kd.open
         shutil.rmtree(run_dir, ignore_errors=True)
     # ---- summarise ------------------------------------------------------------
     world.violations.sort(key=lambda v: (v["step"] if v["inv"] in ("I3", "I6") else 1 << 60))
@@ -877,6 +952,21 @@ def sweep_configs(tier):
             cfg["kills"] = [{"target": "P1", "group": True, "when": {"step": i + j}}]
             cfg["family"] = "preemption_plus_kill"
             out.append(cfg)
+    # three processes, pauses placed right after the points where a solo build touches the
+    # file system (every os call, open, compiler step): P0 runs i steps, P1 j steps, P0 finishes,
+    # P1 runs k more steps, P2 runs to completion, P1 finishes.  Races of depth three live in
+    # one- or two-line windows that uniform random schedules almost never hit.
+    pos = sorted(set(p_ + d_ for p_ in G["event_steps"][model] for d_ in (1, 2)))
+    triples = [(i, j, k) for i in pos for j in pos for k in pos]
+    if tier == "quick":
+        triples = random.Random(18).sample(triples, min(500, len(triples)))
+    big = 3 * solo
+    for (i, j, k) in triples:
+        cfg = base_config([{"name": "P%d" % n_, "loads": [[model, "double"]], "start_at": 0} for n_ in range(3)])
+        cfg["cc_plans"] = [{"cuts": [0.5], "mode": "append", "fail": None}] * 3
+        cfg["fixed_schedule"] = ["P0"] * i + ["P1"] * j + ["P0"] * big + ["P1"] * k + ["P2"] * big + ["P1"] * big
+        cfg["family"] = "triple_after_events"
+        out.append(cfg)
     # a parent that has built another model, then forks two workers that race on this one
     other = "sphere" if model != "sphere" else "cylinder"
     for seed in range(6 if tier == "quick" else 24):
